@@ -5,6 +5,7 @@ import (
 	"go/ast"
 	"go/printer"
 	"go/token"
+	"go/types"
 	"sort"
 	"strings"
 
@@ -138,4 +139,72 @@ func exprText(fset *token.FileSet, e ast.Expr) string {
 	var sb strings.Builder
 	printer.Fprint(&sb, fset, e)
 	return sb.String()
+}
+
+// xrefConstIndex lists reads of slice[<constant>] (and string[<constant>]) in the reader packages
+// that no test involving len() of that slice dominates: a development sweep.
+func xrefConstIndex(p *Prog) {
+	n := 0
+	pkgs := append([]string{"compiler/parser", "pkg/jsonlexer", "pkg/byteconv", "zio/zjsonio", "lake/journal", "service", "api/client"}, c11ReaderPkgs...)
+	for _, fn := range p.FuncsIn(pkgs...) {
+		if strings.HasSuffix(p.Fset.Position(fn.Pos()).Filename, "_test.go") || strings.Contains(p.Fset.Position(fn.Pos()).Filename, "compiler/parser/parser.go") {
+			continue
+		}
+		for _, b := range fn.Blocks {
+			for _, in := range b.Instrs {
+				var x, idx ssa.Value
+				switch v := in.(type) {
+				case *ssa.IndexAddr:
+					x, idx = v.X, v.Index
+				case *ssa.Index:
+					x, idx = v.X, v.Index
+				default:
+					continue
+				}
+				if _, isConst := idx.(*ssa.Const); !isConst {
+					continue
+				}
+				switch x.Type().Underlying().(type) {
+				case *types.Slice, *types.Basic:
+				default:
+					continue
+				}
+				guarded := false
+				lenOfX := func(w ssa.Value) bool {
+					call, ok := w.(*ssa.Call)
+					if !ok {
+						return false
+					}
+					bi, ok := call.Call.Value.(*ssa.Builtin)
+					return ok && bi.Name() == "len" && (call.Call.Args[0] == x || sameVar(call.Call.Args[0], x))
+				}
+				for _, gb := range fn.Blocks {
+					if len(gb.Instrs) == 0 || !(gb.Dominates(b)) {
+						continue
+					}
+					if iff, ok := gb.Instrs[len(gb.Instrs)-1].(*ssa.If); ok && gb != b && dependsOn(iff.Cond, lenOfX) {
+						guarded = true
+					}
+				}
+				// range loops and make([]T, n) with constant n are fine
+				if mk, ok := x.(*ssa.MakeSlice); ok {
+					if _, isConst := mk.Len.(*ssa.Const); isConst {
+						guarded = true
+					}
+				}
+				if _, ok := x.(*ssa.Slice); ok {
+					if al, ok := x.(*ssa.Slice).X.(*ssa.Alloc); ok {
+						if _, isArr := al.Type().(*types.Pointer).Elem().Underlying().(*types.Array); isArr {
+							guarded = true
+						}
+					}
+				}
+				if !guarded {
+					fmt.Println(p.Fset.Position(in.Pos()), fnName(fn))
+					n++
+				}
+			}
+		}
+	}
+	fmt.Println(n, "candidates")
 }
